@@ -294,7 +294,7 @@ package queue
 //   items' = Head ++ old[0..p) ++ (S ? [] : [t]) ++ After ++ old(p..n) ++ Tail      (p >= 0)
 //   items' = Head ++ old ++ Tail                                                      (t no longer queued)
 //@ func (*TaskQueue).Start$[q,t,taskRes]
-//@   prop C05, C04
+//@   prop C05, C04, C03
 //@   requires [only-success-or-keep] taskRes.Status == Success || taskRes.Status == Keep
 //@   requires q != nil && t != nil && NoNil(q.items)
 //@   requires NoNil(taskRes.AfterTasks) && NoNil(taskRes.HeadTasks) && NoNil(taskRes.TailTasks)
@@ -421,3 +421,14 @@ package queue
 //@   modifies nQueueStart, startedQueue
 //@   ghostset nQueueStart := nQueueStart + 1
 //@   ghostset startedQueue[nQueueStart] := q
+
+// C17: stopping the set cancels the context every queue of the set - also one created later -
+// derives its own context from.
+//@ ghost nSetCancel int
+//@ trusted func TaskQueueSet.cancel
+//@   modifies nSetCancel
+//@   ghostset nSetCancel := nSetCancel + 1
+//@ func (*TaskQueueSet).Stop
+//@   prop C17
+//@   modifies nSetCancel
+//@   ensures [set-context-cancelled] tqs.cancel != nil ==> nSetCancel == old(nSetCancel) + 1
